@@ -128,9 +128,11 @@ MANIFEST = dict(
          "'Re-run until completion, successors released exactly once' follows from this by induction on the number of AGAIN answers "
          "(meta-step, not mechanised; composed on the real code for up to 6 / 12 passes as a bounded job).  Only the first half of the "
          "property is covered and the scheduler is a recording stub, hence 'other', not 'proof'.",
-    note="NOT decided: the second half of the property -- chunked generation of startup tasks (generated __jdf2c_startup_<CLASS>, "
-         "task_startup_iter / task_startup_chunk): harness and JDF corpus exist (h_startup.c, jdf/, VERIF_C16_STARTUP=1) but CBMC's "
-         "symbolic execution of the generated unit does not finish in the time budget, so no claim is made.  Also not decided: the "
+    note="The second half of the property -- chunked generation of startup tasks (generated __jdf2c_startup_<CLASS>, "
+         "task_startup_iter / task_startup_chunk, re-entry after AGAIN) -- is NOT decided by this check (the whole generated unit does "
+         "not get through CBMC here); it is decided, for an enumerated set of corpus classes / chunk / iter / placement configurations, by "
+         "the startup_chunked.* jobs of property C01 (spec/C01, which cuts only the generated startup function), and the clearing of the "
+         "ring array that chunked generation relies on is a postcondition of __parsec_schedule_vp under C08.  Also not decided: the "
          "concrete schedulers ('all schedulers' is covered only through the module interface: stub module; C17-C19), release_deps "
          "itself (complete_execution is a counting stub), parsec_select_best_device (stub), interference of other threads on a task "
          "in progress (assumed absent), prepare_input answering an error code (the task is silently dropped under NDEBUG: outside the "
